@@ -28,3 +28,6 @@ func (wf *WALFileType) VerifServeOneFlush() error {
 	f <- struct{}{}
 	return err
 }
+
+// VerifHaveWALWriter reports whether a background WAL writer has announced itself.
+func VerifHaveWALWriter() bool { return haveWALWriter }
